@@ -73,7 +73,7 @@ func (ch c17) Run(c *core.Ctx) {
 	defer env.Stop()
 	depth, nrand, rdepth := 4, 40000, 6
 	if c.Tier == "thorough" {
-		depth, nrand, rdepth = 5, 500000, 8
+		depth, nrand, rdepth = 6, 2000000, 8
 	}
 	var cl *hs.Client
 	var sess *hs.Sess
